@@ -5,6 +5,7 @@ state, the re-synthesis after every report, and the decision structure of the sy
 order of the cases, forced-state arbitration), read from the code's shape."""
 import ast
 from ..model import own_nodes, AnalysisError
+from ..defuse import closed_text
 from ..paths import expand_self, removal_sites, factmap, call_text, returns, must_call
 from .. import supstates
 
@@ -218,17 +219,16 @@ def run(P, R):
     fs = P.unit('ProcessStatus.force_state')
     fmf = factmap(fs)
     arb = [a for a in own_nodes(fs.node) if isinstance(a, ast.Assign) and ast.unparse(a.targets[0]) == 'force_state']
-    vals = sorted((ast.unparse(a.value), tuple(sorted(tuple(f) for f in fmf.at(a)))) for a in arb)
-    ok = vals == sorted([('True', ()), ("instance_info['event_time'] <= event_time",
-                                        (('identifier in self.info_map', True),))])
-    defs = {a.targets[0].id: ast.unparse(a.value) for a in own_nodes(fs.node) if isinstance(a, ast.Assign)
-            and isinstance(a.targets[0], ast.Name)}
-    ok = ok and defs.get('identifier') == "event['identifier']" and defs.get('event_time') == "event['now_monotonic']" \
-        and defs.get('instance_info') == 'self.info_map[identifier]'
+    # closed forms (no local names): True by default; with information from the targeted instance, that instance's
+    # event_time compared with the time of the forced event
+    vals = sorted((closed_text(fs, a.value), tuple(sorted(fmf.closed(a)))) for a in arb)
+    ok = vals == sorted([('True', ()), ("self.info_map[event['identifier']]['event_time'] <= event['now_monotonic']",
+                                        (("event['identifier'] in self.info_map", True),))])
+    defs = {}
     R.check(r5, ok, 'arbitration by the event time of the targeted instance', 'forced|arbitration', fs.loc(),
             'force_state arbitrates with %s / %s' % (vals, defs))
     # what is returned is the arbitration flag itself (returns() lists the assignments of a result local)
-    rv = sorted(ast.unparse(v) for v, f, n in returns(fs) if v is not None)
+    rv = sorted(ast.unparse(v) if isinstance(v, ast.Name) else closed_text(fs, v) for v, f, n in returns(fs) if v is not None)
     R.check(r5, rv in (['force_state'], sorted(t for t, _ in vals)), 'force_state tells whether the forced state was applied', 'forced|result', fs.loc(),
             'force_state returns %s' % rv)
     rf = P.unit('ProcessStatus.reset_forced_state')
